@@ -116,6 +116,7 @@ struct Case {
     std::vector<float> off, data, extra;
     std::vector<std::pair<float, float>> parts;
     std::vector<std::string> words;
+    std::vector<std::string> argv, cfg;
 };
 
 // kick <id> <x|y> <n> <it> <nb> <lastbunch|-1>
@@ -181,6 +182,8 @@ int main(int argc, char** argv) {
         else if (t[0] == "extra") cur.extra = floats(t, 1);
         else if (t[0] == "parts") { auto v = floats(t, 1); for (size_t i = 0; i + 1 < v.size(); i += 2) cur.parts.push_back({v[i], v[i + 1]}); }
         else if (t[0] == "ops") cur.words.assign(t.begin() + 1, t.end());
+        else if (t[0] == "argv") cur.argv.assign(t.begin() + 1, t.end());
+        else if (t[0] == "cfg") cur.cfg.assign(t.begin() + 1, t.end());
         else if (t[0] == "run") { if (open) { dispatch(cur); std::cout.flush(); } open = false; }
         else { cur = Case(); cur.kind = t[0]; cur.id = t.size() > 1 ? t[1] : "?"; cur.head = t; open = true; }
     }
